@@ -25,7 +25,8 @@ CLAIMS = {
                 'configure/regenerate targets a builddir-derived path. These '
                 'are necessary conditions of the property for all inputs at '
                 'once; the behaviour itself (injectivity of naming over all '
-                'path pairs) is not decided.',
+                'path pairs) is not decided.'
+                ' Added: NAME-STRIP-ONCE (default_name + output_file strip the extension at most once), every suffix reaching directory.append passed the parent-reference rewrite, PATH-COMPONENTWISE (no string-prefix/ordering operations on path suffixes).',
         'note': _TB + 'Not decided: injectivity of output naming beyond the '
                 'rewrite; explicit absolute output names.',
         'technique': 'regex structure analysis (re._parser) + CFG dominance '
@@ -51,7 +52,8 @@ CLAIMS.update({
                 '(SH-SAFE) the characters the sh quoter leaves bare are not '
                 'special to sh or in first recipe position, and the quote '
                 'replacement lexes back to a quote. It does not decide the '
-                'round trip quote -> make -> sh for every string.',
+                'round trip quote -> make -> sh for every string.'
+                ' Added after the seeded round: Writer.quote must stay a plain sh quoter (its caller quotes already-escaped text), TARGET-VAR-SCOPE (per-target flags are pattern-specific `%:` variables so options do not leak into prerequisites), ENV-EXPORT (make_command hands global_env(rule.env, rule.cmds) to the recipe), and the comma-protection instance of ESC-MAKE (F13).',
         'note': _TB + 'Not decided: that sh un-quoting o Make expansion o '
                 'quote is the identity over all strings (incl. wrap_quotes '
                 'de-duplication). Known findings F1, F10, F11 are listed in '
@@ -70,7 +72,8 @@ CLAIMS.update({
                 '(CMD-INDIRECTION) command_build defines the generic rule as '
                 'exactly the reference $cmd and passes the real command as a '
                 'build-scoped variable so it is $-evaluated once. Decides '
-                'these structural clauses, not the evaluated command lines.',
+                'these structural clauses, not the evaluated command lines.'
+                ' Added after the seeded round: substitution patterns that can consume more than one character per match do not count as escaping, Writer.quote purity, ENV-EXPORT for ninja_command.',
         'note': _TB + 'Not decided: round trip over all strings; Windows '
                 'cmd /s /c wrapping (folded away by the posix assumption). '
                 'Ninja itself is not installed; its lexical table is cited '
@@ -89,7 +92,8 @@ CLAIMS.update({
                 'Syntax.target/output and right of it dependency/input '
                 '(SYNTAX-POSITION), paths are realised and quoted as one unit '
                 '(WRITE-FLOW), and clean passes Path objects for all targets '
-                '(CLEAN-PATHS).',
+                '(CLEAN-PATHS).'
+                ' Also DEPFIX-TABLE (shared with C07) for depfile entries with escaped characters and the comma-protection instance (F13).',
         'note': _TB + 'Not decided: what compilers write into .d files / '
                 'depfixer agreement; that the tool then finds the file. '
                 'Known findings: srcdir containing #, file names containing '
@@ -110,7 +114,8 @@ CLAIMS.update({
                 'raises on several constraints; (PC-VARS) each variant '
                 'defines the variables its paths can reference; '
                 '(UNORDERED-ITER) no hash-ordered iteration in '
-                'builtins.pkg_config/versioning reaches the file.',
+                'builtins.pkg_config/versioning reaches the file.'
+                ' Added: PC-BOUND-TIEBREAK (the sort key of simplify_specifiers is evaluated symbolically for the four bound operators: the stricter bound wins).',
         'note': _TB + 'Not decided: what pkg-config prints; equivalence of '
                 'simplified specifier sets over all versions. Known finding '
                 'F9 (#); F7 repaired by a fix: commit.',
@@ -133,7 +138,8 @@ CLAIMS.update({
                 'allow-listed); (CLI-ABSPATH) every path argument of the '
                 'driver goes through the absolute-ising argparse types. '
                 'Necessary conditions for determinism under all hash seeds '
-                'and invocation contexts; byte equality is not decided.',
+                'and invocation contexts; byte equality is not decided.'
+                ' AMBIENT (shared with C09) is applied here too: an environment/cwd read outside the capture makes the output depend on the invocation context.',
         'note': _TB + 'Not decided: byte equality of outputs; os.listdir '
                 'order. The unordered analysis is a may-analysis with '
                 'definite sources only (no alias analysis of containers '
@@ -151,7 +157,8 @@ CLAIMS.update({
                 'option grammar frozen in sa/tables.py; (FLAG-MERGE) target '
                 'flags are [global] + per-target in both _get_flags. A flag '
                 'outside the grammar is rejected by every gcc/clang, so this '
-                'is a necessary condition for all option values at once.',
+                'is a necessary condition for all option values at once.'
+                ' Added: OPTION-IDENTITY (Option.matches is full equality and no option class weakens it; environment flag variables are split with shell.split; default include dirs are computed with CPATH neutralised).',
         'note': _TB + 'Not decided: acceptance by the compiler actually '
                 'detected, effect on the program, msvc/jvm translations. F8 '
                 '(-Osize) repaired by a fix: commit.',
@@ -181,7 +188,8 @@ CLAIMS.update({
                 '(DEFAULTS) all/test/tests/install/alias members come from '
                 'the declared sets in both backends. These are necessary '
                 'conditions of graph equality for all scripts; rebuild '
-                'behaviour over histories is not decided.',
+                'behaviour over histories is not decided.'
+                ' DEPS-COVER additionally requires each consumed attribute to reach the dependency list on a path that is unconditional or guarded only by a presence test of that same attribute; RULE-OWNER requires the registration of a tested name to be unconditional.',
         'note': _TB + 'Table REQUIRED (consumed attributes per edge class) '
                 'was confirmed by reading the constructors; a new Edge '
                 'subclass outside the table is reported. Roots analysis '
@@ -201,7 +209,8 @@ CLAIMS.update({
                 'command steps use global_env(rule.env, rule.cmds) in all '
                 'three, depfile argument under the gcc flavor in all three. '
                 'It decides agreement of the code shape, not equality of the '
-                'evaluated command lines.',
+                'evaluated command lines.'
+                ' Added: CompDB keeps every entry (list, unconditional append, dumped whole); ENV-EXPORT in all three command emitters; dependency-root comparison uses guard-clean roots.',
         'note': _TB + 'Not decided: equality of evaluated command lines, '
                 'working directories and environments.',
         'technique': 'cross-checking sibling implementations registered in '
@@ -230,7 +239,8 @@ CLAIMS.update({
                 'sets; (LOAD-ONLY) regenerate/env/run take everything from '
                 'Environment.load, reset variables before replaying the '
                 'toolchain, ignore later command lines. Object equality '
-                'over all values is not decided.',
+                'over all values is not decided.'
+                ' Added: EnvVarDict.reset restores the initial variables on every path (CFG must-pass); the target platform_info() detector may only be called from the configure-time capture.',
         'note': _TB + 'Not decided: equality of configuration objects before '
                 'save / after load over all values. F5, F6, F12 repaired by '
                 'fix: commits.',
@@ -252,7 +262,8 @@ CLAIMS.update({
                 '0/None on all paths, ScriptExitError only carries truthy '
                 'codes, AbortConfigure has one raise site dominated by the '
                 'touch loop and guarded by the unchanged test. Torn files '
-                'and follow-up attempts are not decided.',
+                'and follow-up attempts are not decided.'
+                ' The hook phase (pre-rules / handler / post-rules) is part of the WRITE-ORDER instance key.',
         'note': _TB + 'Not decided: crash points inside one write (the build '
                 'file is written in place); behaviour of follow-up attempts. '
                 'Known finding F3 (find cache saved before the build file).',
@@ -277,7 +288,8 @@ CLAIMS.update({
                 'classes of registrations as the miss path; '
                 '(NULLABLE-ROUNDTRIP) no saved field changes value across '
                 'save/load. Equality with a fresh configure over histories '
-                'and convergence are not decided.',
+                'and convergence are not decided.'
+                ' Added: SKIP-ONLY-IF-IDENTICAL (the lazy check compares found and extra of every cached filter; variables are reset before the toolchain replay), registration-order and new-directory clauses (known findings F14, F15).',
         'note': _TB + 'Not decided: equality of regenerated files with a '
                 'fresh configure over edit histories; mtime orderings; '
                 'convergence. F4 and F12 repaired by fix: commits.',
@@ -296,7 +308,8 @@ CLAIMS.update({
                 'exclude_recursive, precedence exclude > include > extra, '
                 'and the include/not_now split of find_from_filter. The '
                 'glob matching semantics -- most of the property -- are not '
-                'decided by static analysis.',
+                'decided by static analysis.'
+                ' Also PATH-COMPONENTWISE for uniquetrees/commonprefix.',
         'note': _TB + 'Not decided: matching semantics of *, ?, [..], **, '
                 'type selection, soundness of `never` pruning over all trees '
                 'and patterns; existence of returned entries.',
@@ -312,7 +325,8 @@ CLAIMS.update({
                 'lists all of them relative to srcdir; (REGEN-INPUTS) every '
                 'executed script is a bootstrap path; (CACHE-REPLAY) files '
                 'found through find_files incl. extra ones are registered '
-                'on the cached path too. Archive contents are not decided.',
+                'on the cached path too. Archive contents are not decided.'
+                ' Added: every builtin accepting dist= forwards it to _find/find_from_filter/static_file.',
         'note': _TB + 'Not decided: what doppel puts into the archive; that '
                 'the unpacked archive configures equivalently.',
         'technique': 'who-may-call + guard check, decorator-driven '
@@ -335,7 +349,8 @@ CLAIMS.update({
                 'dependency is echoed and terminated by ":\\n", targets are '
                 'not echoed, truncated input is rejected. What real '
                 'compilers write and what Make does over edit histories is '
-                'not decided.',
+                'not decided.'
+                ' deps_flavor is evaluated symbolically per concrete cc compiler class and C-family language (must be \'gcc\', incl. the PCH compiler); the include operand of the depfile is written as a Make target name.',
         'note': _TB + 'Not decided: the bulk of the property (real '
                 'compilers, Make re-reading, arbitrary histories).',
         'technique': 'guard-scoped wiring checks + symbolic enumeration of '
@@ -353,7 +368,8 @@ CLAIMS.update({
                 'attributes read by __hash__ are a subset of those compared '
                 'by __eq__; (PATH-JSON) to_json writes 3 elements incl. the '
                 'directory flag, from_json reads indices 0..2 in constructor '
-                'order. The algebraic laws over all strings are not decided.',
+                'order. The algebraic laws over all strings are not decided.'
+                ' Added: PATH-COMPONENTWISE and RELPATH-IMPL (relative paths come from posixpath.relpath on the two suffixes).',
         'note': _TB + 'Not decided: relpath/append inverse, realise = join, '
                 'commonprefix/uniquetrees minimality over all strings.',
         'technique': 'who-may-write + CFG dominance + attribute-set '
@@ -370,7 +386,8 @@ CLAIMS.update({
                 'libraries returns an $ORIGIN-relative path on the same-root '
                 'branch, rpaths become -Wl,-rpath, shared libraries get a '
                 'bare-name soname whenever an output is known. Linking and '
-                'running real binaries is not decided.',
+                'running real binaries is not decided.'
+                ' Added: LINK-WORDS-KEPT (no de-duplication of link words / forwarded options), RELPATH-IMPL, PATH-COMPONENTWISE.',
         'note': _TB + 'Not decided: that binaries link and run, order '
                 'correctness for arbitrary DAGs.',
         'technique': 'field writer/reader agreement + expression checks',
@@ -385,7 +402,8 @@ CLAIMS.update({
                 'installed recursively; post-install rpath rewrite targets '
                 'the installed copy; make and ninja share all helpers; each '
                 'installable file class of the property has the documented '
-                'install root. The resulting file tree is not decided.',
+                'install root. The resulting file tree is not decided.'
+                ' Added: in BasePath.realize no root-containing result is returned before DESTDIR is prepended (CFG dominance).',
         'note': _TB + 'Not decided: what doppel/patchelf produce on disk.',
         'technique': 'sibling agreement (install vs uninstall, make vs '
                      'ninja) + constant tables of install roots',
